@@ -45,8 +45,9 @@ def site_what(site):
     return f"{site[0]}.{site[1]} is accessed in {site[2]} outside the protection its policy entry demands (recorded exception)"
 
 
-REGRESSION_SCENARIOS = ["batcherr", "connoffset", "readerversion", "readergroup"]
+REGRESSION_SCENARIOS = ["batcherr", "connoffset", "readerversion", "readergroup", "writergrow", "recordset"]
 FOCUS_SCENARIO = {"Batch.err": "batcherr", "Conn.offset": "connoffset", "Reader.version": "readerversion",
+                  "$kafka.partitionsCache": "writergrow", "snappy.writer.xerialWriter": "recordset",
                   "Reader.cancel": "readergroup"}
 
 
